@@ -104,7 +104,9 @@ class Fitter(object):
         self.sc_law = -2. * np.ones(self.av_law.shape)
 
         self.model_dir = model_dir
-        self.av_range = av_range
+        # (a copy, like the extinction law below: a list that the caller goes on
+        # to change must not change the fits)
+        self.av_range = deepcopy(av_range)
         # (a copy: the law was evaluated above, and the caller may go on to use
         # its object for another law)
         self.extinction_law = deepcopy(extinction_law)
